@@ -58,17 +58,23 @@ def appendContents (c : Option Val) (m : Str) : Except PyErr (Option Val) :=
 def Filter.writeAttrs (f : Filter) (a : Attrs) : Attrs :=
   f.sets.foldl (fun d kv => Dict.set d kv.1 kv.2) (f.dels.foldl (fun d k => Dict.erase d k) a)
 
+/-- what the filter returns -/
+def Filter.newContents (f : Filter) (tag : Str) (c : Option Val) : Except PyErr (Option Val) :=
+  match f.act with
+  | .keep => pure c
+  | .append m => appendContents c m
+  | .replace v => pure (some v)
+  | .drop => pure none
+  | .appendTag => appendContents c tag
+
 /-- one call `fn(tagname, attributes, contents, context, bind)`: attributes changed in place, new contents returned;
     the context is not touched -/
 def Filter.apply (f : Filter) (tag : Str) (st : TState) : Except PyErr TState := do
-  let attrs := f.writeAttrs st.attrs
-  let contents ← match f.act with
-    | .keep => pure st.contents
-    | .append m => appendContents st.contents m
-    | .replace v => pure (some v)
-    | .drop => pure none
-    | .appendTag => appendContents st.contents tag
-  pure { st with attrs := attrs, contents := contents }
+  let contents ← f.newContents tag st.contents
+  pure { st with attrs := f.writeAttrs st.attrs, contents := contents }
+
+/-- the filter assigns the attribute `k` -/
+def Filter.writes (f : Filter) (k : Str) : Bool := f.sets.any (fun kv => kv.1 == k)
 
 /-- the loop of `transform_filters` -/
 def runFilters (tag : Str) : List Filter → TState → Except PyErr TState
@@ -94,8 +100,8 @@ def filtersOf (E : FilterEnv) : CVal → Except PyErr (List Filter)
   | .markup s => if s.isEmpty then pure [] else throw .typeError
   | _ => throw .typeError
 
-def sAutoFilter : Str := "auto_filter".toList
-def sFilters : Str := "filters".toList
+abbrev sAutoFilter : Str := "auto_filter".toList
+abbrev sFilters : Str := "filters".toList
 
 /-- `transform_filters(tagname, attributes, contents, context, bind)` -/
 def transformFiltersF (E : FilterEnv) (T : Tables) (tag : Str) (_bind : Option Bind) (st : TState) :
